@@ -496,6 +496,9 @@ def run_input(unit):
 
 def units(tier, seed):
     us = [{'harness': 'input'}]
+    # the client in front of the assessment: a rewritten input (doubled area ...) must be assessed again, not answered from an earlier result
+    us.append({'harness': 'client-real-files', 'client': 'hip', 'H': 2, 'caching': True})
+    us.append({'harness': 'client-params'})      # a porosity / factor of exactly 0 passed through the dict API must reach the assessment
     for dp in (False, True):
         for pp in (False, True):
             for fg in ((False,) if tier == 'quick' and (dp != pp) else (False, True)):
@@ -506,7 +509,13 @@ def units(tier, seed):
 
 
 def run_unit(unit):
-    if unit['harness'] == 'input':
+    if unit['harness'] == 'client-params':
+        from . import c07
+        yield from c07.run_client_params(unit)
+    elif unit['harness'] == 'client-real-files':
+        from . import c08files
+        yield from c08files.run_unit(unit)
+    elif unit['harness'] == 'input':
         yield from run_input(unit)
     elif unit['harness'] == 'calc':
         yield from run_calc(unit)
